@@ -121,6 +121,23 @@ func Root() string {
 	return "/verif"
 }
 
+// EvidenceDir is where evidence and failure replays are written (/verif/evidence unless the driver
+// runs against a scratch checkout).
+func EvidenceDir() string {
+	if d := os.Getenv("VERIF_EVIDENCE_DIR"); d != "" {
+		return d
+	}
+	return filepath.Join(Root(), "evidence")
+}
+
+// RepoDir is the esbuild checkout under test.
+func RepoDir() string {
+	if d := os.Getenv("VERIF_REPO"); d != "" {
+		return d
+	}
+	return "/repo"
+}
+
 // New reads the environment set by ./check.
 func New(property string) *H {
 	seed := uint64(1)
@@ -285,14 +302,21 @@ var (
 	kfList []KnownFinding
 )
 
-// KnownFindings loads /verif/known-findings.json (read-only).
+// KnownFindings loads /verif/known-findings.d/*.json (read-only; one file per property).
 func KnownFindings() []KnownFinding {
 	kfOnce.Do(func() {
-		b, err := os.ReadFile(filepath.Join(Root(), "known-findings.json"))
-		if err != nil {
-			return
+		files, _ := filepath.Glob(filepath.Join(Root(), "known-findings.d", "*.json"))
+		sort.Strings(files)
+		for _, f := range files {
+			b, err := os.ReadFile(f)
+			if err != nil {
+				continue
+			}
+			var l []KnownFinding
+			if json.Unmarshal(b, &l) == nil {
+				kfList = append(kfList, l...)
+			}
 		}
-		json.Unmarshal(b, &kfList)
 	})
 	return kfList
 }
@@ -316,7 +340,7 @@ func (h *H) FlushFailure(sub string) {
 		return
 	}
 	delete(h.lastFail, sub)
-	dir := filepath.Join(h.Root, "evidence", "failures", h.Property)
+	dir := filepath.Join(EvidenceDir(), "failures", h.Property)
 	os.MkdirAll(dir, 0o755)
 	b, _ := json.MarshalIndent(f, "", " ")
 	name := fmt.Sprintf("%s-%s-seed%d-shard%d-%08x.json", sub, h.Tier, h.Seed, h.Shard, hash64(string(b))&0xffffffff)
